@@ -15,7 +15,7 @@ open ZV ZV.Genesis
 /-- the facts the model of `NewMomentumContent` was written for are the ones in the tree -/
 theorem content_facts :
     Gen.headerComparer = "bytes.Compare <= 0" ∧ Gen.newMomentumContentSortCalls = 1 ∧
-      Gen.accountHeaderBytesFields = ["Address", "Height", "Hash"] ∧ Gen.AccountBlockHeaderRawLen = 60 := by decide
+      Gen.gnAccountHeaderBytesFields = ["Address", "Height", "Hash"] ∧ Gen.AccountBlockHeaderRawLen = 60 := by decide
 
 /-- `NewMomentumContent` returns a permutation of its input, sorted by header bytes. -/
 theorem content_sorted (l : List Header) :
